@@ -34,7 +34,7 @@ Print Assumptions C17_interior.
 Theorem C17_minmax : forall c, words_of c <> [] ->
   (In (comp_min c) (words_of c) /\ forall x, In x (words_of c) -> word_leb (comp_min c) x = true) /\
   (In (comp_max c) (words_of c) /\ forall x, In x (words_of c) -> word_leb x (comp_max c) = true).
-Proof. intros c H. split; [apply ChefProofs.comp_min_spec | apply ChefProofs.comp_max_spec]; exact H. Qed.
+Proof. intros c H. split; [apply comp_min_spec | apply comp_max_spec]; exact H. Qed.
 Print Assumptions C17_minmax.
 
 (* non-vacuity: a 2x1x1 box stored with one ghost cell (4x3x3 values, 2 components) *)
